@@ -265,10 +265,18 @@ func init() {
 	}})
 
 	// ---- histories (Engine B): reference model = set of relations --------------------------------
-	for _, kind := range []string{"pid", "name", "alias", "event"} {
-		kind := kind
+	for _, hkind := range []string{"pid", "name", "alias", "event", "metaalias"} {
+		hkind := hkind
+		// "metaalias": the target is the alias of a meta process owned by T; it goes away with T
+		kind := hkind
+		if hkind == "metaalias" {
+			kind = "alias"
+		}
 		alphabet := []string{"O1.link", "O1.unlink", "O1.monitor", "O1.demonitor", "O2.link", "O2.monitor", "T.kill", "T.normal", "O1.normal"}
-		switch kind {
+		if hkind == "metaalias" {
+			alphabet = append(alphabet, "T.shutdown-by-stranger")
+		}
+		switch hkind {
 		case "name":
 			alphabet = append(alphabet, "T.unregister", "T.register")
 		case "alias":
@@ -283,6 +291,16 @@ func init() {
 			fails, _ := vsched.RunOnce(10, nodeBody(func(w *World) {
 				w.ex.Data["kind"] = kind
 				t := w.spawnTarget("T", "tname", "tev")
+				if hkind == "metaalias" {
+					w.Do("T", func(p *probe) error {
+						a, err := p.SpawnMeta(&metaProbe{r: &rec{name: "TM"}, start: &vsched.Gate{}}, gen.MetaOptions{})
+						if err != nil {
+							panic(err)
+						}
+						t.alias = a
+						return nil
+					})
+				}
 				obs := map[string]*observer{"O1": w.spawnObserver("O1"), "O2": w.spawnObserver("O2")}
 				// model
 				rels := map[string]bool{} // "O1|link"
@@ -311,13 +329,16 @@ func init() {
 						}
 					}
 					switch {
-					case who == "T" && (what == "kill" || what == "normal"):
+					case who == "T" && (what == "kill" || what == "normal" || what == "shutdown-by-stranger"):
 						if !alive["T"] {
 							key = ""
 							return
 						}
 						if what == "kill" {
 							w.Setup(fmt.Sprintf("op%d", step), func() { w.n.Kill(t.pid) })
+						} else if what == "shutdown-by-stranger" {
+							w.Setup(fmt.Sprintf("op%d", step), func() { w.n.SendExit(t.pid, gen.TerminateReasonShutdown) })
+							what = "shutdown"
 						} else {
 							w.Setup(fmt.Sprintf("op%d", step), func() { w.n.Send(t.pid, "normal") })
 						}
@@ -494,7 +515,7 @@ func init() {
 			}
 			return key
 		}
-		harn.Register(harn.Scenario{Property: "C04", Name: "hist-" + kind, Run: func(c *harn.Ctx) *harn.Result { return harn.OpSeq(c, spec) }})
+		harn.Register(harn.Scenario{Property: "C04", Name: "hist-" + hkind, Run: func(c *harn.Ctx) *harn.Result { return harn.OpSeq(c, spec) }})
 	}
 }
 
